@@ -570,11 +570,19 @@ class Gen:
         c_lo = len(self.out)
         self.emit(header, 'spec', specfile, specline + 1)
         c_hi = len(self.out)
-        pre = kw.get('pre', '')
+        pre = kw.get('pre', '').replace('~', ' ')
+        suffix = kw.get('suffix', '').replace('~', ' ')
         self.emit('{' + pre, 'spec', specfile, specline, False)
+        if suffix:
+            # R3: the arm is a statement of a loop body whose function ends with `suffix`; a `continue` of that loop ends the arm
+            inner = [(l[0], src.match[l[3]]) for l in find_loops(src, arm.body_lo, arm.body_hi)]
+            for k in range(arm.body_lo, arm.body_hi + 1):
+                if src.is_id(k, 'continue') and src.is_p(k + 1, ';') and not any(a < k < b for a, b in inner):
+                    proofs = list(proofs) + [(0, '@span', (src.toks[k].start, src.toks[k].end, 'return ' + suffix))]
+                    self.drops.add('R3: `continue` in a sliced match arm of a loop body becomes `return`')
         segs = self.body_with_insertions(src, arm.body_lo, arm.body_hi, loops, proofs, rel)
         self.emit_segs(segs, rel)
-        self.emit('}', 'spec', specfile, specline, False)
+        self.emit((';' + suffix if suffix else '') + '}', 'spec', specfile, specline, False)
         self.end_block(c_lo, c_hi)
 
     def do_closure(self, parts, block, specfile, specline):
